@@ -138,6 +138,23 @@ def check(ctx, rep):
     rep.assume('AtomicWaker::register/wake pairing is race-free (futures contract)')
 
 
+def held_types(crate, ty, _depth=0, _seen=None):
+    """the type and, for the crate's own structs / enums named in it, the types of their fields (transitively): what a value of the
+    type owns"""
+    _seen = _seen if _seen is not None else set()
+    out = [ty]
+    if _depth >= 4:
+        return out
+    for path, a in crate.adts.items():
+        if path in _seen or not re.search(r'(^|[^\w:])' + re.escape(path) + r'($|[^\w:])', ty):
+            continue
+        _seen.add(path)
+        for v in a['variants']:
+            for f in v['fields']:
+                out += held_types(crate, f['ty'], _depth + 1, _seen)
+    return out
+
+
 def check_legacy_futures(rep, rid_d, rid_e, core):
     """legacy shell futures: slot check and waker store under one lock; the resolve closure delivers and takes the waker under that
     lock and wakes it on every path"""
@@ -170,8 +187,9 @@ def check_legacy_futures(rep, rid_d, rid_e, core):
         g = clo
         # the closure lives inside the Request, which the shared state's send_request owns until the first poll: it may only hold a Weak
         # reference to that state, or a future dropped before its first poll keeps itself (and everything it captured) alive for ever
-        strong = [u['name'] for u in g.upvars if re.match(r'^alloc::sync::Arc<std::sync::poison::mutex::Mutex<', u.get('ty') or '')]
-        weak = [u['name'] for u in g.upvars if (u.get('ty') or '').startswith('alloc::sync::Weak<')]
+        # (a captured struct of the crate counts through its fields)
+        strong = [u['name'] for u in g.upvars if any(re.search(r'\balloc::sync::Arc<std::sync::poison::mutex::Mutex<', x) for x in held_types(core, u.get('ty') or ''))]
+        weak = [u['name'] for u in g.upvars if any(re.search(r'\balloc::sync::Weak<', x) for x in held_types(core, u.get('ty') or ''))]
         rep.expect(rid_d, bool(weak) and not strong, '%s|resolve-holds-weak' % mod, 'the resolve closure captures a Weak to the shared state',
                    'legacy %s: the resolve closure holds a strong Arc to the future\'s shared state (%s): shared state -> send_request -> Request -> '
                    'closure -> shared state is a cycle until the first poll, so a future dropped unpolled is never freed' % (mod, strong))
